@@ -232,9 +232,22 @@ func (acceptAll) Next(response []byte) ([]byte, bool, error) {
 	return nil, true, nil
 }
 
+// withFinal accepts any response and ends with data for the client (like SCRAM's server signature)
+type withFinal struct{}
+
+func (withFinal) Next(response []byte) ([]byte, bool, error) {
+	if response == nil {
+		return nil, false, nil
+	}
+	return []byte("fin"), true, nil
+}
+
 func (s *ScriptSession) saslAuth(mech string) (sasl.Server, error) {
 	if err := s.call("Authenticate", mech); err != nil {
 		return nil, err
+	}
+	if mech == "XFINAL" {
+		return withFinal{}, nil
 	}
 	return acceptAll{}, nil
 }
